@@ -252,6 +252,10 @@ func TestC07(t *testing.T) {
 			src, expect, note string
 		}{
 			{"func f(a int, a int) {\n}\nf(1, 2)\n", "reject", "duplicate-parameter"},
+			{"func f(a int, b int, a int) {\n}\nf(1, 2, 3)\n", "reject", "duplicate-parameter-not-adjacent"},
+			{"func f(s string, n int, flag bool, s int) {\n}\nf(\"x\", 2, true, 3)\n", "reject", "duplicate-parameter-first-and-last-of-four"},
+			{"func f(a int, b int, c int, b int, d int) {\n}\nf(1, 2, 3, 4, 5)\n", "reject", "duplicate-parameter-in-the-middle-of-five"},
+			{"func f(a int, b int, c int) int {\nreturn a + b + c\n}\nprint(f(1, 2, 3))\n", "accept", "three-distinct-parameters"},
 			{"func f() {\n}\nfunc f() {\n}\nf()\n", "reject", "duplicate-function"},
 			{"func f() int {\nif cv {\nreturn 1\n}\n}\nprint(f())\n", "reject", "falls-off-end-after-if"},
 			{"func f() int {\nreturn 1\nprint(2)\n}\nprint(f())\n", "reject", "last-statement-not-return"},
